@@ -69,7 +69,7 @@ func (s *Stats) Distinct(d uint64) {
 
 // MaxDistinctPerWorker caps the exact distinct-case set of one worker process
 // (memory); beyond it the count is conservative (an undercount).
-const MaxDistinctPerWorker = 400000
+const MaxDistinctPerWorker = 100000
 
 // State records a distinct reached state (resume state, interleaving…).
 func (s *Stats) State(d uint64) {
